@@ -144,6 +144,11 @@ type Scenario struct {
 	Deadline time.Time
 	// NoRecover lets panics crash (debugging).
 	NoRecover bool
+	// Watchdog, if > 0, bounds one execution: an execution that has not returned after this
+	// long (orders of magnitude above its normal duration) is reported with the violation
+	// signature HangSig. Its goroutine is abandoned.
+	Watchdog time.Duration
+	HangSig  string
 }
 
 // Stats is the accounting of one exploration.
@@ -214,7 +219,39 @@ func (s *Scenario) RunOnce(prefix []int) (x *X, r Result) {
 			}
 		}()
 	}
-	r = s.Run(x)
+	if s.Watchdog > 0 {
+		type res struct {
+			r Result
+			p any
+		}
+		ch := make(chan res, 1)
+		go func() {
+			defer func() {
+				if e := recover(); e != nil {
+					ch <- res{p: e}
+				}
+			}()
+			ch <- res{r: s.Run(x)}
+		}()
+		select {
+		case v := <-ch:
+			if v.p != nil {
+				panic(v.p)
+			}
+			r = v.r
+		case <-time.After(s.Watchdog):
+			// x is still owned by the abandoned goroutine: report from a copy of the picks made so far
+			r = Result{Obs: "HANG"}
+			r.Viol = append(r.Viol, Violation{s.HangSig, fmt.Sprintf("execution did not return within %v (normal executions take milliseconds); choices so far: %v", s.Watchdog, prefix)})
+			cp := &X{prefix: prefix}
+			for i, p := range prefix {
+				cp.Points = append(cp.Points, Point{Label: fmt.Sprintf("p%d", i), N: p + 1, Pick: p})
+			}
+			return cp, r
+		}
+	} else {
+		r = s.Run(x)
+	}
 	if len(x.Points) < len(prefix) {
 		r.Viol = append(r.Viol, Violation{"INFRA|replay-diverged", fmt.Sprintf("prefix has %d picks, execution made only %d", len(prefix), len(x.Points))})
 	}
@@ -406,6 +443,9 @@ func (s *Scenario) Explore() *Stats {
 
 	// determinism self-check: first, last and (up to 20) violating executions re-run
 	recheck := func(vec []int, obs string, times int) {
+		if obs == "HANG" {
+			times = 1
+		}
 		for i := 0; i < times; i++ {
 			_, r := s.RunOnce(vec)
 			if r.Obs != obs {
